@@ -12,7 +12,7 @@ trap 'git -C /repo worktree remove --force $WT >/dev/null 2>&1' EXIT
 DEMO=$(ls $SD/*_test.go | head -1)
 PKG=$(head -3 $DEMO | grep -o 'Copy into:\? *[^ ]*' | head -1 | sed 's/Copy into:\? *//'); PKG=${PKG%/}
 # fallback: the package directory of the go test command quoted in the header (… ./tsdb/)
-[ -z "$PKG" ] && PKG=$(head -4 $DEMO | grep -o "go test[^\n]* \./[A-Za-z0-9_/]*" | head -1 | grep -o "\./[A-Za-z0-9_/]*$" | sed 's#^\./##'); PKG=${PKG%/}
+[ -z "$PKG" ] && PKG=$(head -4 $DEMO | grep -o "go test.* \./[A-Za-z0-9_/]*" | head -1 | grep -o "\./[A-Za-z0-9_/]*$" | sed 's#^\./##'); PKG=${PKG%/}
 RUN=$(grep -o "\-run '[^']*'" $DEMO | head -1 | sed "s/-run '//; s/'//")
 [ -z "$RUN" ] && RUN=$(grep -o '^func Test[A-Za-z0-9_]*' $DEMO | head -1 | sed 's/func //')
 echo "seed=$SD pkg=$PKG run=$RUN"
